@@ -2446,11 +2446,16 @@ class op(object):
                 G = lin_ineqs[0]._f._linear._coeff.get(v, None)
                 if G is None or G.size != (len(lin_ineqs[0]), len(v)):
                     inmatrixform = False
+                # a scalar right-hand side still has to be expanded
+                if len(lin_ineqs[0]._f._constant) != len(lin_ineqs[0]):
+                    inmatrixform = False
             else: G = None
 
             if equalities: 
                 A = equalities[0]._f._linear._coeff.get(v, None)
                 if A is None or A.size != (len(equalities[0]), len(v)):
+                    inmatrixform = False
+                if len(equalities[0]._f._constant) != len(equalities[0]):
                     inmatrixform = False
             else: A = None
 
@@ -2643,8 +2648,10 @@ class op(object):
                     e0[0] = 1.0
                     mmap[i] = mmap[i] + e0 * sum(mc)
 
+        # (the equality constraint of the new problem is the last one;
+        # there is no inequality constraint if m is zero)
         for e in  equalities:
-            mmap[e] = constraints[1].multiplier[eslc[e]]
+            mmap[e] = constraints[-1].multiplier[eslc[e]]
         return (op(cost, constraints), vmap, mmap)
 
 
